@@ -93,7 +93,7 @@ def native_replay(path, optimize):
         info = json.loads(line)
     except Exception:
         info = {"raw_stdout": r.stdout[-2000:], "raw_stderr": r.stderr[-2000:]}
-    return r.returncode == 1, info
+    return (r.returncode == 1 and isinstance(info, dict) and info.get('reproduced') is True), info
 
 
 def bounded_run(spec, optimize, seed, n):
